@@ -4,6 +4,7 @@
      sem_c19_strong   (case families)             "refutes some problem" agrees in all 8 families
      sem_c03[_all]    (case problems)             refutes some forward problem iff H<=T, (H,T)|=L, (H,T)|/=R
      sem_outline[_all] (case result)              accepted definitions are fresh / closed / over earlier predicates
+     sem_c13_fresh    (case result)               accepted definitions define no predicate of the EMITTED task formulas
      sem_c11          (case result)               accepted => the seven conditions; refused => the named one fails
      sem_c19_external (case families)             as sem_c19_strong, for external tasks (arithmetic-free) *)
 open Sexp
@@ -308,6 +309,64 @@ let sem_c13_order (e : Sexp.t) : Sexp.t =
   | L [ _; _ ] -> ok 0
   | _ -> bad "sem_c13_order: %s" (to_string e)
 
+(* ---------- sem_c13_fresh ---------- *)
+(* On an accepted external task with a proof outline: the predicate defined by an accepted
+   `definition` must occur in NO formula of the task itself, judged on the problems the
+   implementation actually EMITTED (i.e. after `rename_predicates`: a private predicate q/n shared
+   by both sides is q_p/n on the program side).  Task formulas of a direction, recovered by position
+   (see sem_c13_order): the first #axioms - L axioms of <dir>_problem_0 (stable premises, premises),
+   the conjectures of every <dir>_problem_k, and the first #axioms - D - i axioms of
+   <dir>_outline_i_j.  Lemma consequences and the definitions themselves are not task formulas. *)
+let sem_c13_fresh (e : Sexp.t) : Sexp.t =
+  match e with
+  | L [ L [ task; _ ]; L [ A "ok"; _; L (A "problems" :: pbs) ] ] ->
+    let t = Ops_tasks.ext_task task in
+    let pbs = List.map problem pbs in
+    let in_dir fwd (a : aformula_annot) = match a.an_dir with DUniversal -> true | DForward -> fwd | DBackward -> not fwd in
+    let task_formulas = ref [] and used_defs = ref [] in
+    let add (p : problem) (fs : pformula list) = task_formulas := !task_formulas @ List.map (fun a -> (name_of p, a.pf_formula)) fs in
+    List.iter (fun (prefix, fwd) ->
+        let lemmas = List.filter (fun (a : aformula_annot) -> (a.an_role = RLemma || a.an_role = RInductiveLemma) && in_dir fwd a) t.et_proof_outline in
+        let defs = List.filter (fun (a : aformula_annot) -> a.an_role = RDefinition && in_dir fwd a) t.et_proof_outline in
+        let nl = List.length lemmas and nd = List.length defs in
+        let emitted = ref false in
+        List.iter (fun (p : problem) ->
+            let n = name_of p in
+            let pre_o = prefix ^ "_outline_" and pre_p = prefix ^ "_problem_" in
+            if starts_with pre_p n then begin
+              emitted := true;
+              add p (conjectures p);
+              if n = pre_p ^ "0" then add p (Semlib.take (max 0 (List.length (axioms p) - nl)) (axioms p))
+            end else if starts_with pre_o n then begin
+              emitted := true;
+              let rest = String.sub n (String.length pre_o) (String.length n - String.length pre_o) in
+              match String.split_on_char '_' rest with
+              | [ i; _ ] -> (match int_of_string_opt i with
+                  | Some i -> add p (Semlib.take (max 0 (List.length (axioms p) - nd - i)) (axioms p))
+                  | None -> ())
+              | _ -> ()
+            end) pbs;
+        if !emitted then used_defs := !used_defs @ List.filter (fun d -> not (List.mem d !used_defs)) defs)
+      [ ("forward", true); ("backward", false) ];
+    let rec head = function
+      | FQ (QForall, _, f) -> head f
+      | FBin (CIff, FAtomic (AAtom (p, ts)), _) -> Some { psym = p; parity = Conv.nat_of_int (List.length ts) }
+      | _ -> None in
+    let count = ref 0 and result = ref None in
+    List.iter (fun (d : aformula_annot) ->
+        match head d.an_formula with
+        | None -> ()
+        | Some pr ->
+          incr count;
+          (match List.find_opt (fun (_, f) -> List.mem pr (predicates f)) !task_formulas with
+           | Some (pn, f) when !result = None ->
+             result := Some (L [ A "cex"; S "an accepted definition defines a predicate that occurs in the task's own formulas of the emitted problems";
+                                 of_pred pr; L [ A "definition"; of_annot d ]; L [ A "problem"; S pn ]; L [ A "task-formula"; of_formula f ] ])
+           | _ -> ())) !used_defs;
+    (match !result with Some r -> r | None -> ok !count)
+  | L [ _; _ ] -> ok 0
+  | _ -> bad "sem_c13_fresh: %s" (to_string e)
+
 (* ---------- sem_c11 ---------- *)
 let sem_c11 (e : Sexp.t) : Sexp.t =
   match e with
@@ -490,5 +549,6 @@ let () =
   Ops.register "sem_outline_all" (sem_outline_gen ~strict:true);
   Ops.register "sem_c11" sem_c11;
   Ops.register "sem_c13_order" sem_c13_order;
+  Ops.register "sem_c13_fresh" sem_c13_fresh;
   Ops.register "sem_c19_external" sem_c19_external
 let init () = ()
